@@ -18,7 +18,7 @@ META = {
     "technique": "bounded-exhaustive enumeration of ssh_config texts x hostnames on the real SSHConfig, "
                  "compared with a reference implementation of first-obtained-value semantics",
     "text": "Every config of three stated families (S1: optional global setting + <=2 (quick) / <=3 (thorough) "
-            "Host/Match blocks over 39-59 headers x 5-7 one-line bodies; S2: <=2 blocks over 2-7 headers x all "
+            "Host/Match blocks over 39-59 headers x 5-7 one-line bodies + the empty (option-less) body; S2: <=2 blocks over 2-7 headers x all "
             "ordered 1-2 settings out of 15 incl. %-tokens; S3: key case / '=' / quoting variants) x 4 hostnames: "
             "lookup() equals the reference key for key, get_hostnames() contains every Host pattern.",
     "note": "Match exec, canonicalisation and Include are outside the space; Match criteria are evaluated with "
@@ -124,8 +124,9 @@ SETTINGS = [
 ]
 KEYNAMES = {"user": "User", "port": "Port", "hostname": "HostName", "identityfile": "IdentityFile",
             "proxycommand": "ProxyCommand", "controlpath": "ControlPath"}
+EMPTY_BODY = ()         # a Host/Match line followed by no option at all (legal: e.g. every option commented out)
 B1 = [(s,) for s in [("user", "u1"), ("port", "2222"), ("hostname", "%h.x"), ("identityfile", "k2"),
-                     ("identityfile", "~/k1"), ("proxycommand", None), ("proxycommand", "nc %h %p")]]
+                     ("identityfile", "~/k1"), ("proxycommand", None), ("proxycommand", "nc %h %p")]] + [EMPTY_BODY]
 B2 = [(s,) for s in SETTINGS] + [(a, b) for a in SETTINGS for b in SETTINGS]
 G1 = [(), (("user", "u2"),), (("hostname", "b.c"),), (("identityfile", "k2"),)]
 HS_FULL = [H("*"), H("ab"), H("a*", "!ab"), H("!a*", "*"), MATCHES[0], MATCHES[5], MATCHES[7]]
@@ -358,7 +359,7 @@ def run_item(item, acc):
                 check_config((), ((H("*"), body),), acc, style)
                 check_config(body, ((H("ab"), (("user", "u1"),)),), acc, style)
 
-B1Q = [b for b in B1 if b[0] not in (("identityfile", "~/k1"), ("proxycommand", "nc %h %p"))]
+B1Q = [b for b in B1 if not b or b[0] not in (("identityfile", "~/k1"), ("proxycommand", "nc %h %p"))]
 
 
 def space(tier):
@@ -404,7 +405,8 @@ def run_any(item, acc):
 def main(tier):
     ck = core.Check(
         PID, tier, "exploration",
-        "case = (config text, hostname); every config of families S1/S2/S3 (see bound) x 4 hostnames; "
+        "case = (config text, hostname); every config of families S1/S2/S3 (see bound; S1 block bodies include "
+        "the empty, option-less body in every position) x 4 hostnames; "
         "distinct_nontrivial = distinct (hostname, block headers, set of applying blocks, feature mask) among "
         "cases in which the reference had to decide something: a later applying block offered another value "
         "(1), IdentityFile accumulated from >=2 blocks (2), a %-token was expanded (4), a negated pattern "
@@ -426,7 +428,7 @@ def main(tier):
         "match_headers": [render_header(m).strip() for m in MATCHES],
         "settings": [render_setting(x).strip() for x in SETTINGS],
         "S1": "global section in %d options x every sequence of <=2 blocks; header in %d (Host with 1-2 patterns + "
-              "%d Match headers) x body in %d one-line settings" % (
+              "%d Match headers) x body in %d (one-line settings + the empty, option-less body)" % (
                   len(sp["globals"]), len(sp["hdr1"]), len(MATCHES), len(sp["body1"])),
         "S1x3": None if not sp["x3"] else "every sequence of exactly 3 blocks; header in %d x body in %d, global "
                                           "section in %d option(s)" % (len(sp["x3"][0]), len(sp["x3"][1]),
